@@ -6,6 +6,8 @@
 #  define BK_MBOX
 #  define BK_BYNAME
 #endif
+// C11H_INTERNAL: the model backend declares needs_internal_lookup_symbol (function addresses are an internal representation
+// distinct from the invocation pointer)
 #include "backends.hpp"
 #include "vcommon.hpp"
 #include <deque>
@@ -120,6 +122,17 @@ static bool apply(World& w, const Op& op)
       else if (c1 - c0 != 1) viol(sg("invoke", "call-count"), kase, "add3 ran " + std::to_string(c1 - c0) + " times in this instance");
       break;
     }
+    case 'n': {
+      // invoke the SAME name whose address is taken by 'a' / 'p'
+      if (!w.live[i]) return true;
+      int r = -1;
+      auto o = attempt([&] { r = sb.invoke_sandbox_function(inc1, 5).UNSAFE_unverified(); });
+      n_eval++;
+      n_nontriv++;
+      if (o != RET) viol(sg("invoke-addressed-name", "abort"), kase, "invoking inc1 by name aborted (its address " + std::string(w.addr[i] ? "had" : "had not") + " been taken before)");
+      else if (r != 5 + w.lib[i]) viol(sg("invoke-addressed-name", "other-function"), kase, "inc1(5) on instance " + std::to_string(i) + " returned " + std::to_string(r));
+      break;
+    }
     case 'a': {
       if (!w.live[i]) return true;
       const void* a = nullptr;
@@ -130,7 +143,12 @@ static bool apply(World& w, const Op& op)
         break;
       }
 #ifdef BK_MBOX
-      if (a != symtab(w.lib[i], "inc1")) viol(sg("function-address", "other-library"), kase, "address of inc1 on instance " + std::to_string(i) + " is another library's function");
+#  ifdef MBOX_INTERNAL_LOOKUP
+      const void* want_a = SB::tag_internal(symtab(w.lib[i], "inc1"));
+#  else
+      const void* want_a = symtab(w.lib[i], "inc1");
+#  endif
+      if (a != want_a) viol(sg("function-address", SB::untag_or_same(a) == SB::untag_or_same(want_a) ? "invocation-pointer-instead-of-address" : "other-library"), kase, std::string("address of inc1 on instance ") + std::to_string(i) + (SB::untag_or_same(a) == SB::untag_or_same(want_a) ? " is not the backend's function-address representation (the invocation pointer was handed out instead)" : " is another library's function"));
 #else
       Dl_info di;
       char want[64];
@@ -167,10 +185,28 @@ static void teardown(World& w)
       }
     }
 }
+// second symbol cache (addresses handed out as tainted function pointers), if the tree under test has one
+template<class S, class = void>
+struct cache2
+{
+  static size_t size(S&) { return 0; }
+};
+template<class S>
+struct cache2<S, std::void_t<decltype(std::declval<S&>().internal_func_ptr_map)>>
+{
+  static size_t size(S& s) { return s.internal_func_ptr_map.size(); }
+};
+static size_t cache2_size(sbx_t& s) { return cache2<sbx_t>::size(s); }
 static std::string key(World& w)
 {
   std::string k;
-  for (int i = 0; i < 3; i++) k += std::to_string(w.live[i]) + std::to_string(w.lib[i]) + (w.addr[i] ? "a" : "-") + std::to_string(w.s[i].func_ptr_map.size()) + ";";
+  for (int i = 0; i < 3; i++) {
+    k += std::to_string(w.live[i]) + std::to_string(w.lib[i]) + (w.addr[i] ? "a" : "-");
+    // the symbol cache(s), by content: which names are cached (merging states that differ here hid the order "invoke, then take the address")
+    for (auto& e : w.s[i].func_ptr_map) k += "," + e.first;
+    k += "/" + std::to_string(cache2_size(w.s[i]));
+    k += ";";
+  }
   return k;
 }
 
@@ -183,7 +219,7 @@ int main(int argc, char** argv)
 #endif
   std::vector<Op> alpha;
   for (int i = 0; i < 3; i++)
-    for (char k : { '1', '2', 'd', 'i', 'j', 'g', 'a', 'p' }) alpha.push_back({ k, i });
+    for (char k : { '1', '2', 'd', 'i', 'j', 'g', 'a', 'p', 'n' }) alpha.push_back({ k, i });
   if (g_args.replay) {
     auto f = split(g_args.replay, '|');
     if (f[0] == bk_name) {
